@@ -545,6 +545,22 @@ def t_termination(ctx, cfgs):
                 "or absent target is an error) - evaluated by C06.R0 on chains, cycles, self references and absent links: every walk ends")
     except Exception:  # noqa: BLE001
         pass
+    # the sub-key recursion through serde (LocaleSeed::visit_map <-> ParsedValueSeed::visit_map, invisible to the call graph: it goes through the
+    # deserializer): serde_json and serde_yaml refuse more than 128 levels themselves, the json5 crate has no limit - so with `json5_files` the
+    # nesting depth of a file is bounded only if the visitors bound it
+    try:
+        cargo_ = ctx.read("leptos_i18n_parser/Cargo.toml")
+        vm_ = [f for f in ctx.ast.fns if f.file.endswith("parse_locales/parsed_value.rs") and f.name == "visit_map" and "ParsedValueSeed" in (f.impl_self or "") and f.body is not None]
+        if "json5" in cargo_ and vm_:
+            from astlib import show as _show
+            body_ = _show(vm_[0].body)
+            if re.search(r"key_path\.(path\.)?len\(\)|depth|recursion", body_):
+                r.inst("ParsedValueSeed::visit_map#nesting", "the visitor bounds the nesting depth itself (json5 has no recursion limit)", cfg="json5")
+            else:
+                r.viol("T:json5-nesting", "with the `json5_files` feature a file of deeply nested sub-keys recurses LocaleSeed::visit_map <-> ParsedValueSeed::visit_map without bound: the json5 crate has no "
+                       "recursion limit (serde_json / serde_yaml stop at 128) and the visitors add none", file=vm_[0].file, line=vm_[0].line)
+    except Exception:  # noqa: BLE001
+        pass
     nxt = re.compile(r"::next$|::next_key$|::next_key_seed$|::next_element_seed$|::next_element$|::next_value|::next_entry")
     for cfg in cfgs:
         prog = ctx.mir(cfg)
